@@ -544,6 +544,66 @@ def rule_f(F):
     return res
 
 
+def rule_m(F):
+    """C15.M: a location is (namespace of the module, position of the function *in that module*, card path). The compiler
+    flattens the module tree into one stream; `FunctionIr.function_index` - which becomes `CardIndex::function` of every
+    trace entry and compile-error location of that function - has to stay the position in `module.functions` (the enumerate
+    index of the loop over them), not the position in the flattened stream: resolving namespace + index in the source
+    module otherwise finds another function of that module, or none."""
+    res = []
+    g = F.fn("compiler::module::function_to_function_ir")
+    key = "C15/M/function_to_function_ir/function-index-is-module-relative"
+    fexpr = None
+    for x in hir_walk(g.hir["body"]):
+        if x.get("k") == "struct" and short(x["path"]["res"].get("path", "")).endswith("FunctionIr"):
+            for fl in x["fields"]:
+                if fl["name"] == "function_index":
+                    fexpr = fl.get("e") or fl.get("expr")
+    if fexpr is None:
+        raise AnchorMissing("FunctionIr { function_index: .. } in function_to_function_ir")
+    params = [p_.get("id") for p_ in g.hir["params"]]
+    lid = hir_local_id(hu.strip_all(fexpr))
+    if lid not in params:
+        return [undecided("C15.M", key, g.loc(), "function_index is not a parameter of function_to_function_ir")]
+    pidx = params.index(lid)
+    sites = 0
+    for f in F.fns:
+        if not f.hir or f.is_closure:
+            continue
+        # for (IDX, ..) in <module>.functions.iter().enumerate()
+        loop_idx = {}
+        for m in hir_walk(f.hir["body"]):
+            if m.get("k") == "match" and m.get("source") == "ForLoopDesugar":
+                head = hu.strip_all((m.get("e") or m.get("scrut") or {}).get("args", [None])[0]) if (m.get("e") or m.get("scrut") or {}).get("k") == "call" else None
+                chain = []
+                e = head
+                while e is not None and e.get("k") == "mcall":
+                    chain.append(e["name"])
+                    e = hu.strip_all(e["recv"])
+                over_functions = e is not None and e.get("k") == "field" and e.get("name") == "functions"
+                if chain[:1] == ["enumerate"] and over_functions and not ({"rev", "skip", "filter", "chain", "zip"} & set(chain)):
+                    for y in hir_walk(m):
+                        if y.get("k") == "match" and y is not m and y.get("source") == "ForLoopDesugar":
+                            for a in y["arms"]:
+                                bs = pat_bindings(a["pat"])
+                                if bs:
+                                    loop_idx[bs[0][0]] = True   # first binding of (idx, (name, function))
+        for x in hir_walk(f.hir["body"]):
+            if x.get("k") == "call" and "compiler::module::function_to_function_ir" in hir_callee(x) and len(x["args"]) > pidx:
+                sites += 1
+                a = hir_local_id(hu.strip_all(x["args"][pidx]))
+                if a is not None and a in loop_idx:
+                    res.append(ok("C15.M", key, f.loc(x.get("ln")), "function_index = the enumerate index of the loop over module.functions"))
+                else:
+                    res.append(bad("C15.M", key, f.loc(x.get("ln")),
+                                   "the function index stored in FunctionIr (and so in every trace entry and compile-error location of the "
+                                   "function) is not the function's position in its own module's `functions`: for a function of a sub-module "
+                                   "the location `namespace + index` resolves to another function of that module or to none"))
+    if sites < 1:
+        raise AnchorMissing("call of function_to_function_ir")
+    return res
+
+
 def rule_r(F):
     """C15.R: a failure inside a script function that a host function called back into keeps its location. The nested
     interpreter loop hands back an ExecutionError {payload, trace}; wherever the re-entry point (Vm::run_function and its
@@ -597,6 +657,7 @@ def rule_r(F):
 
 
 RULES = [
+    Rule("C15.M", rule_m, 1, "the function index of a location is module-relative"),
     Rule("C15.R", rule_r, 0, "a failure inside a callback keeps its location"),
     Rule("C15.I", rule_i, 40, "compiler child numbering equals Card::get_child for every card kind"),
     Rule("C15.P", rule_p, 50, "runtime errors are located at the failing instruction's opcode position"),
